@@ -26,7 +26,8 @@ def arc_points(rng):
 
 class C17(Property):
     id = "C17"
-    lean_module = "RosuModel.Props.C17ArcEnd"   # imports Props/C17Arc.lean, Props/C17Ends.lean and Props/C17.lean; all in namespace Rosu.C17
+    lean_module = "RosuModel.Props.C17Full"   # imports Props/C17Arc.lean, Props/C17Ends.lean and Props/C17.lean; all in namespace Rosu.C17
+    theorem_modules = ['RosuModel.Props.C17ArcEnd', 'RosuModel.Props.C17ArcTol']   # files whose top-level theorems are all audited
     namespace = "Rosu.C17"
     design_ref = "5.17"
     level_text = (
